@@ -234,6 +234,9 @@ def line_text(ln):
         return lead + " " + " ".join(hdr + toks)
     if ln["lay"] == "paren":
         return lead + " " + " ".join(hdr) + " (\n" + "".join("\t%s\n" % x for x in toks) + "  )"
+    if ln["lay"] == "paren0":
+        # continuation text and the closing parenthesis at column 0
+        return lead + " " + " ".join(hdr) + " (\n" + "".join("%s\n" % x for x in toks) + ")"
     # parenc: parenthesis straight after the owner, comments and an empty line inside
     body = hdr + toks
     return (lead + " ( " + body[0] + " ; first (comment \"inside\"\n\n"
